@@ -19,25 +19,39 @@ type shape struct {
 	writes    []M   // set / insert / delete ops (without txn id)
 	locks     []int // keys only locked (pessimistic) and not written
 	lockFirst []int // pessimistic: keys locked by a first call (the primary is chosen among them), the rest by a second call
+	alevel    string // assertion level ("" = off, "fast", "strict")
+}
+
+// shapes with prewrite assertions (C04's enumeration only): all true; one false in a non-primary batch; unknown; fast level;
+// a freshly inserted row deleted again (pessimistic: only its lock is converted)
+var assertShapes = []shape{
+	{"assert_ok", []M{{"c": "set", "k": 1, "v": 11}, {"c": "assert", "k": 1, "a": "exist"}, {"c": "set", "k": 3, "v": 13}, {"c": "assert", "k": 3, "a": "notexist"},
+		{"c": "delete", "k": 4}, {"c": "assert", "k": 4, "a": "exist"}}, nil, nil, "strict"},
+	{"assert_fail", []M{{"c": "set", "k": 1, "v": 11}, {"c": "assert", "k": 1, "a": "exist"}, {"c": "set", "k": 2, "v": 12}, {"c": "assert", "k": 2, "a": "notexist"},
+		{"c": "set", "k": 4, "v": 14}}, nil, nil, "strict"},
+	{"assert_fail_last", []M{{"c": "set", "k": 1, "v": 11}, {"c": "set", "k": 3, "v": 13}, {"c": "assert", "k": 3, "a": "exist"}, {"c": "set", "k": 4, "v": 14},
+		{"c": "assert", "k": 4, "a": "unknown"}}, nil, nil, "fast"},
+	{"assert_off", []M{{"c": "set", "k": 1, "v": 11}, {"c": "assert", "k": 1, "a": "notexist"}, {"c": "set", "k": 3, "v": 13}}, nil, nil, ""},
+	{"insdel_new", []M{{"c": "insert", "k": 3, "v": 13, "newly": true}, {"c": "delete", "k": 3}, {"c": "set", "k": 4, "v": 14}}, nil, nil, ""},
 }
 
 var shapes = []shape{
-	{"put1", []M{{"c": "set", "k": 1, "v": 11}}, nil, nil},
-	{"put2", []M{{"c": "set", "k": 1, "v": 11}, {"c": "set", "k": 3, "v": 13}}, nil, nil},
-	{"mix3", []M{{"c": "set", "k": 2, "v": 12}, {"c": "delete", "k": 1}, {"c": "insert", "k": 3, "v": 13}}, nil, nil},
-	{"put4", []M{{"c": "set", "k": 1, "v": 11}, {"c": "set", "k": 2, "v": 12}, {"c": "set", "k": 3, "v": 13}, {"c": "set", "k": 4, "v": 14}}, nil, nil},
-	{"lockonly", []M{{"c": "set", "k": 3, "v": 13}}, []int{2}, nil},
-	{"insdel", []M{{"c": "insert", "k": 3, "v": 13}, {"c": "delete", "k": 3}, {"c": "set", "k": 4, "v": 14}}, nil, nil},
+	{"put1", []M{{"c": "set", "k": 1, "v": 11}}, nil, nil, ""},
+	{"put2", []M{{"c": "set", "k": 1, "v": 11}, {"c": "set", "k": 3, "v": 13}}, nil, nil, ""},
+	{"mix3", []M{{"c": "set", "k": 2, "v": 12}, {"c": "delete", "k": 1}, {"c": "insert", "k": 3, "v": 13}}, nil, nil, ""},
+	{"put4", []M{{"c": "set", "k": 1, "v": 11}, {"c": "set", "k": 2, "v": 12}, {"c": "set", "k": 3, "v": 13}, {"c": "set", "k": 4, "v": 14}}, nil, nil, ""},
+	{"lockonly", []M{{"c": "set", "k": 3, "v": 13}}, []int{2}, nil, ""},
+	{"insdel", []M{{"c": "insert", "k": 3, "v": 13}, {"c": "delete", "k": 3}, {"c": "set", "k": 4, "v": 14}}, nil, nil, ""},
 	// the primary is the largest key (pessimistic: the key locked first), so its batch is the last one in key order
-	{"lastprimary", []M{{"c": "set", "k": 4, "v": 14}, {"c": "set", "k": 1, "v": 11}, {"c": "set", "k": 3, "v": 13}}, nil, []int{4}},
-	{"midprimary", []M{{"c": "set", "k": 3, "v": 13}, {"c": "set", "k": 1, "v": 11}, {"c": "delete", "k": 4}}, []int{2}, []int{3}},
+	{"lastprimary", []M{{"c": "set", "k": 4, "v": 14}, {"c": "set", "k": 1, "v": 11}, {"c": "set", "k": 3, "v": 13}}, nil, []int{4}, ""},
+	{"midprimary", []M{{"c": "set", "k": 3, "v": 13}, {"c": "set", "k": 1, "v": 11}, {"c": "delete", "k": 4}}, []int{2}, []int{3}, ""},
 }
 var layouts = [][]int{{}, {3}, {2, 3, 4}}
 var baseData = map[int]int{1: 1, 2: 2, 4: 4}
 
 // victimOps builds the victim's program up to (not including) commit
 func victimOps(sh shape, pess bool) []M {
-	ops := []M{{"c": "begin", "txn": "v", "client": "v", "pess": pess, "async": false, "onepc": false}}
+	ops := []M{{"c": "begin", "txn": "v", "client": "v", "pess": pess, "async": false, "onepc": false, "alevel": sh.alevel}}
 	if pess {
 		ks := append([]int{}, sh.locks...)
 		seen := map[int]bool{}
@@ -244,7 +258,7 @@ func runC02(w *World, rng *rand.Rand, div int) {
 								pk = sh.lockFirst[0]
 							}
 							var f2 int32
-							runVictimAs(w, r, "v2", shape{"second", []M{{"c": "set", "k": pk, "v": 21}}, nil, nil}, false, func(idx int, req *tikvrpc.Request) Action {
+							runVictimAs(w, r, "v2", shape{"second", []M{{"c": "set", "k": pk, "v": 21}}, nil, nil, ""}, false, func(idx int, req *tikvrpc.Request) Action {
 								if req.Type == tikvrpc.CmdPrewrite && atomic.CompareAndSwapInt32(&f2, 0, 1) {
 									return Action{kind: "crash_after"}
 								}
@@ -313,7 +327,7 @@ func runC02(w *World, rng *rand.Rand, div int) {
 						other = 3
 					}
 					var f2 int32
-					runVictimAs(w, r, "v2", shape{"second", []M{{"c": "set", "k": pk, "v": 21}, {"c": "set", "k": other, "v": 24}}, nil, nil}, false, func(idx int, req *tikvrpc.Request) Action {
+					runVictimAs(w, r, "v2", shape{"second", []M{{"c": "set", "k": pk, "v": 21}, {"c": "set", "k": other, "v": 24}}, nil, nil, ""}, false, func(idx int, req *tikvrpc.Request) Action {
 						// die once both prewrites have taken effect (one request per region)
 						if req.Type == tikvrpc.CmdCommit && atomic.CompareAndSwapInt32(&f2, 0, 1) {
 							return Action{kind: "crash_before"}
